@@ -18,7 +18,10 @@ pure-Python logic of _df_fillna, every pandas / numpy operation being an uninter
   frame        _df_fillna / df_fillna never write into the object they were given (pyvc/own.py)
 Path precondition of the loop obligations: limit is not a negative number (the backward-interpolation branch rebinds `params` for the
 following steps; executed for one step only).  Assumed: as_list, recursion of _df_fillna / df_fillna by name.
-Bounded only: _nona / nona (mask reduction loop, edge slicing), what the pandas operations compute, @loop lifting over containers.
+  _nona / nona the value mask (isnan / isinf / ==) is reduced with .min(axis = 1) until one-dimensional (a frame row goes only when every column matches;
+               loop invariant with ghost reduction count, variant = number of dimensions), an empty pandas object is returned as it is, edge = 1 / -1
+               only trims after the last / before the first kept label via df_slice with closed brackets
+Bounded only: what the pandas operations compute, @loop lifting over containers.
 """
 import ast
 import z3
@@ -277,7 +280,87 @@ def build(ctx):
 
     ctx.trust('pandas semantics (which cells ffill / bfill / fillna / interpolate touch within limit, last_valid_index, .loc / .iloc row selection) are '
               'uninterpreted here and decided by the bounded stand-in rac/C12.py only')
-    ctx.trust('_nona / nona are bounded only')
+
+    # =========================================================================================== _nona / nona
+    VALUE, EDGE = Const('VALUE', PV), Const('EDGE', PV)
+    RED = z3.Function('min_along_axis_1_repeated', PV, IntSort(), PV)        # RED(m, k): m reduced k times with .min(axis = 1)
+
+    def nona_section():
+        f = m.func('_nona')
+        loops = [s for s in f.body if isinstance(s, ast.While)]
+        if len(loops) != 1 or len(loops[0].body) != 1:
+            raise SelectorError('_nona: expected one `while len(mask.shape) > 1: mask = mask.min(axis = 1)` loop')
+        loop, step = loops[0], loops[0].body[0]
+        rp = replay_of('nona')
+        isnan, isinf = TRUTH(F('np.isnan', VALUE)), TRUTH(F('np.isinf', VALUE))
+        mask0 = If(isnan, F('np.isnan', DF), If(isinf, F('np.isinf', DF), CMP('Eq', DF, VALUE)))
+        dims = lambda x: LEN(A('shape', x))
+        red_def = lambda k: [RED(mask0, 0) == mask0, RED(mask0, k + 1) == M('min', RED(mask0, k), axis=1)]
+        # numpy / pandas fact used for termination only: reducing along axis 1 drops one dimension
+        drop_dim = lambda x: Implies(dims(x) > 1, dims(M('min', x, axis=1)) == dims(x) - 1)
+
+        def inv(st, entry):
+            k = st.ghost['K']
+            mk = st.env['mask']
+            return [('mask_is_the_value_mask_reduced_k_times', And(k >= 0, mk.t == RED(mask0, k)) if mk.kind == 'pv' else BoolVal(False)),
+                    ('one_reduction_per_surplus_dimension', If(dims(mask0) <= 1, k == 0, And(dims(RED(mask0, k)) == dims(mask0) - k, k <= dims(mask0) - 1)))]
+
+        def ghost_havoc(ex, st):
+            st.ghost['K'] = Int(fresh_name('K'))
+
+        def after(ex, st, s):
+            k = st.ghost['K']
+            for c in red_def(k) + [drop_dim(RED(mask0, k))]:
+                st.pc.append(c)
+            st.ghost['K'] = k + 1
+
+        spec = LoopSpec('_nona.reduce', inv, variant=lambda st: dims(st.env['mask'].t), ghost_havoc=ghost_havoc)
+        th, ths = theories()
+        ex = Exec(m, ths, loops={id(loop): spec}, hooks=[(lambda x: x is step, after)], name='')
+        st = State()
+        st.ghost['K'] = IntVal(0)
+        st.pc += [RED(mask0, 0) == mask0, dims(mask0) >= 0]
+        outs = run_def(ex, st, f, [P(DF), P(VALUE), P(EDGE)])
+        for ob in ex.obligations:
+            ob.meta.setdefault('replay', rp)
+        ctx.absorb(ex); ctx.record_function(m, '_nona', f, ex.stmts_executed, excluded=['@loop(dict, list, tuple) lifting over containers: bounded (C19)'])
+        n = 0
+        for o in outs:
+            hy = ex.facts + bf() + o.st.pc
+            if o.kind != 'return':
+                ctx.post('_nona.never_raises', hy, BoolVal(False), kind='safety', replay=rp, witness=w0)
+                continue
+            n += 1
+            k = o.st.ghost['K']
+            final = RED(mask0, k)
+            kept = GETITEM(DF, UN('Invert', final))
+            empty = And(TRUTH(F('is_pd', DF)), LEN(DF) == 0)
+            plain = Or(EDGE == NONEPV, LEN(kept) == 0, Not(TRUTH(F('is_pd', DF))))
+            want = If(empty, DF, If(plain, kept,
+                                    If(TRUTH(CMP('Eq', EDGE, 1)), R('df_slice', DF, None, GETITEM(A('index', kept), -1), '[]', 1),
+                                       If(TRUTH(CMP('Eq', EDGE, -1)), R('df_slice', DF, GETITEM(A('index', kept), 0), None, '[]', 1), NONEPV))))
+            r = th.to_pv(ex, o.st, o.val) if th.convertible(o.val) else None
+            w = dict(k=k)
+            ctx.post('_nona.mask_is_reduced_until_it_has_one_dimension', hy, And(k >= 0, dims(final) <= 1), replay=rp, witness=w)
+            ctx.post('_nona.keeps_the_rows_outside_the_reduced_value_mask_or_only_trims_the_edge', hy, r == want if r is not None else BoolVal(False), replay=rp, witness=w)
+            ctx.post('_nona.one_dimensional_input_is_masked_as_it_is', hy + [dims(mask0) <= 1, Not(empty), plain], r == GETITEM(DF, UN('Invert', mask0)) if r is not None else BoolVal(False),
+                     replay=rp, witness=w)
+            ctx.post('_nona.frame_rows_go_only_when_every_column_matches', hy + red_def(IntVal(0)) + [dims(mask0) == 2, drop_dim(mask0), Not(empty), plain],
+                     r == GETITEM(DF, UN('Invert', M('min', mask0, axis=1))) if r is not None else BoolVal(False), replay=rp, witness=w)
+        if n == 0:
+            raise OutOfSubset('_nona has no returning path')
+        ctx.cover('_nona.frame_reachable', bf() + [dims(mask0) == 2, drop_dim(mask0)])
+        fd = m.func('nona')
+        th, ths = theories()
+        ex = Exec(m, ths, name='nona')
+        outs = run_def(ex, State(), fd, [P(DF), P(VALUE), P(EDGE)])
+        ctx.absorb(ex); ctx.record_function(m, 'nona', fd, ex.stmts_executed)
+        for o in outs:
+            hy = ex.facts + bf() + o.st.pc
+            ctx.post('nona.forwards_a_value_edge_to__nona', hy,
+                     BoolVal(False) if o.kind != 'return' or not th.convertible(o.val) else th.to_pv(ex, o.st, o.val) == R('_nona', DF, VALUE, EDGE), replay=rp, witness=w0)
+    ctx.guarded('_nona', nona_section)
+    ctx.trust('_nona: numpy fact used for the termination of the mask reduction - x.min(axis = 1) has one dimension less than x - is assumed')
 
 
 def replay_of(kind, **kw):
